@@ -94,13 +94,13 @@ PROPS["C10"] = {
              "existing bucket or open iff start>now-wait else too old; tick emits start<=t-wait ascending), compared after every tick as a "
              "multiset (tolerance 1.5e-6), plus ascending order, six-decimal formatting, never-twice set, TooOld counter after every point. "
              "Non-trivial: history with >=2 buckets open at once AND an out-of-order point AND a point at the cutoff AND a late point for a "
-             "closed bucket. Distinct = hash(rule, full history)."),
+             "closed bucket. Distinct = hash(rule, full history). concurrent_points: 2-8 goroutines hand 20-1500 points each (1-1000 series, four buckets, one point in ten not matching) to ONE aggregation (sum/count/min/max, cache, dropRaw and inbox size drawn) at the same time; every AddMaybe must answer consumed = dropRaw and filter verdict, the in-counter must equal the number of matching points and the emitted lines must be exactly the function of the points per (output name, bucket)."),
     "level_text": "Model-based stateful testing with a harness-owned clock: every arrival/tick interleaving generated is deterministic and compared with a reference aggregator; holds on all generated histories.",
     "level_note": "Go regexp Expand trusted for output-name expansion; clock non-decreasing and ticks <= now, as the statement assumes; derive ties at the extreme timestamps accept any tied value.",
     "technique": "property-based testing (rapid state machine) against a reference aggregator model",
     "assumptions": ["non-decreasing clock", "tick times never exceed the clock"],
-    "quick": [R("TestPropAggregator", 4000, steps=60)],
-    "thorough": [R("TestPropAggregator", 60000, shards=16, steps=80, timeout=2400)],
+    "quick": [R("TestPropAggregator", 4000, steps=60), R("TestPropConcurrentPoints", 300)],
+    "thorough": [R("TestPropConcurrentPoints", 6000, shards=2, timeout=2400), R("TestPropAggregator", 60000, shards=16, steps=80, timeout=2400)],
 }
 
 PROPS["C12"] = {
